@@ -94,7 +94,8 @@ static FLAGDROP: [AtomicUsize; N] = [const { AtomicUsize::new(0) }; N];
 static STREAM_ENDED: [AtomicBool; N] = [const { AtomicBool::new(false) }; N];
 static PIPE_STARTED: [AtomicUsize; N] = [const { AtomicUsize::new(usize::MAX) }; N];
 struct DropFlag(usize);
-impl Drop for DropFlag { fn drop(&mut self) { FLAGDROP[self.0].fetch_add(1, SeqCst); } }
+static FLAG_OPENS: [AtomicUsize; N] = [const { AtomicUsize::new(usize::MAX) }; N];
+impl Drop for DropFlag { fn drop(&mut self) { FLAGDROP[self.0].fetch_add(1, SeqCst); let g = FLAG_OPENS[self.0].load(SeqCst); if g != usize::MAX { GATE[g].store(true, SeqCst); GATE_AT[g].store(now(), SeqCst); let w = GATE_WAKER[g].lock().unwrap().take(); if let Some(w) = w { GATE_WOKE[g].store(true, SeqCst); w.wake(); } } } }
 struct GateStream { n: usize, ends: bool, idx: usize, pipe: usize, flag: DropFlag, gates: Vec<usize> }
 impl futures::Stream for GateStream {
     type Item = usize;
@@ -119,6 +120,12 @@ fn op_done(op: usize, v: usize) { RES[op].store(v, SeqCst); RET[op].store(now(),
     A('    vsched::configure(%d, vec![%s]);' % (sc.get('pool_max', 0), sched))
     for q in range(nq): A('    let q%d = queue();' % q)
     for k_ in sorted(set(o[1] for th_ in sc['threads'] for o in th_['ops'] if o[0] == 'rewake')): A('    REWAKE[%d].store(true, SeqCst);' % k_)
+    pid_ = 0
+    for th_ in sc['threads']:
+        for o in th_['ops']:
+            if o[0] in ('pipe_in', 'pipe'):
+                if o[0] == 'pipe_in' and len(o) > 2 and o[2].get('drop_opens') is not None: A('    FLAG_OPENS[%d].store(%d, SeqCst);' % (2 * pid_ + 1, o[2]['drop_opens']))
+                pid_ += 1
     callers = [t['name'] for t in sc['threads'] if not t.get('final')]
     opid = 0
     handles = []
